@@ -342,6 +342,10 @@ def run_shard(ctx):
             # a generated schema (G-schema) instead of the fixed one
             sidx = rng.randrange(4000)
             if sidx not in gen_cache:
+                while len(gen_cache) >= 48:
+                    dropped = next(iter(gen_cache))
+                    gen_cache.pop(dropped)
+                    history.pop(dropped, None)
                 gs = generated_schema(sidx)
                 gen_cache[sidx] = None if gs is None else (gs, print_schema(gs), docmut.vocabulary(gs))
             if gen_cache[sidx] is None:
